@@ -85,12 +85,15 @@ def check(run):
                                      name="Layer_mc.cfg 2 names 2 holders 3 resolves"),
                   lambda: run.tlc_mc("Layer", "Layer_mc.cfg", {"NH": "2", "MaxR": "3", "TrackFiles": "TRUE"}, workers=2, timeout=3000, name="Layer_mc.cfg files")])
     if not skip_mc and not thorough:
-        par(run, [lambda: run.tlc_mc("Layer", "Layer_mc.cfg", {"NH": "2", "MaxR": "3", "MaxFault": "1"}, workers=2, timeout=900, name="Layer_mc.cfg 1 name 2 holders 3 resolves 1 fault"),
-                  lambda: run.tlc_mc("Layer", "Layer_mc.cfg", {"Names": AB, "NH": "2", "MaxR": "2", "MaxFault": "1"}, workers=2, timeout=900,
+        par(run, [lambda: run.tlc_mc("Layer", "Layer_mc.cfg", {"NH": "2", "MaxR": "3", "MaxFault": "1", "MaxBreak": "0"}, workers=1, timeout=900,
+                                     name="Layer_mc.cfg 1 name 2 holders 3 resolves 1 failure"),
+                  lambda: run.tlc_mc("Layer", "Layer_mc.cfg", {"NH": "2", "MaxR": "2", "MaxFault": "1", "MaxBreak": "1"}, workers=1, timeout=900,
+                                     name="Layer_mc.cfg 1 name 2 holders 2 resolves 1 failure 1 break (check interval)"),
+                  lambda: run.tlc_mc("Layer", "Layer_mc.cfg", {"Names": AB, "NH": "2", "MaxR": "2", "MaxFault": "1", "MaxBreak": "0"}, workers=1, timeout=900,
                                      name="Layer_mc.cfg 2 names 2 holders 2 resolves"),
-                  lambda: run.tlc_mc("Layer", "Layer_mc.cfg", {"NH": "2", "MaxR": "2", "MaxFault": "1", "TrackFiles": "TRUE"}, workers=1, timeout=900,
+                  lambda: run.tlc_mc("Layer", "Layer_mc.cfg", {"NH": "2", "MaxR": "2", "MaxFault": "1", "MaxBreak": "0", "TrackFiles": "TRUE"}, workers=1, timeout=900,
                                      name="Layer_mc.cfg files")])
-    small = {"NH": "2", "MaxR": "3"}
+    small = {"NH": "2", "MaxR": "2"}
     ctl = [(dict(small, **{guard: "FALSE"}), expect) for guard, expect in (
         ("ResolveLock", ["NoDuplicateCreation", "ReturnedIsCached"]),
         ("CloseWaitsForHolders", ["HeldLayerServes", "ReadWorks"]),
